@@ -26,7 +26,7 @@ COQ_DEPS = ["Common/ListX.v", "Common/ObsHash.v", "Generated/Tables.v", "Model/C
 COQ_IMPORTS = "From Mesa Require Import Model.Copy Model.CopyWorld."
 COQ_CASE_TYPE = "wcase"
 COQ_RUN = "run_world"
-TABLE_CONSTRUCTS = ["c19_cell_slots", "c19_cell_getstate", "c19_gridcell_pickle", "c19_gridcell_unpickle", "c19_grid_getstate",
+TABLE_CONSTRUCTS = ["c19_cell_slots", "c19_cell_getstate", "c19_cell_add_remove", "c19_gridcell_pickle", "c19_gridcell_unpickle", "c19_grid_getstate",
                     "c19_grid_setstate_classes", "c19_grid_setstate_descr", "c19_dspace_setstate", "c19_agentset_state"]
 ENUM_ALWAYS = False
 
